@@ -308,6 +308,7 @@ class Run:
     def __init__(self, prop, tier, seed):
         self.prop, self.tier, self.seed = prop, tier, seed
         self.rng = random.Random(seed * 1000003 + int(prop[1:]))
+        self.budget = tier
         self.t0 = time.time()
         self.evaluations = 0
         self.distinct = set()
@@ -321,6 +322,13 @@ class Run:
         self.traces = 0
         self.assumptions = []
         self.hist = {}
+
+    def start_pass(self, budget):
+        """every exploration pass (quick / thorough / search) starts from its own PRNG state, so that a replay of the pass that
+        found something reproduces it without running the passes before it"""
+        self.budget = budget
+        extra = {"quick": 0, "thorough": 0, "search": 7919}.get(budget, 0)
+        self.rng = random.Random(self.seed * 1000003 + int(self.prop[1:]) + extra)
 
     def count(self, key, n=1):
         self.hist[key] = self.hist.get(key, 0) + n
@@ -366,7 +374,7 @@ def write_replay(run, kind, payload, n=0):
     REPLAYS.mkdir(exist_ok=True)
     path = REPLAYS / f"{run.prop}-{run.tier}-{run.seed}-{n}.json"
     payload = dict(payload)
-    payload.update({"property": run.prop, "kind": kind, "seed": run.seed, "tier": run.tier})
+    payload.update({"property": run.prop, "kind": kind, "seed": run.seed, "tier": run.tier, "pass": run.budget})
     path.write_text(json.dumps(payload, indent=1, default=str))
     return path
 
